@@ -10,7 +10,7 @@
    are never cached, and transparency is stated for the code's actual clone.  Byte-for-byte determinism across processes is carried
    for build_global_layout (the one place where the compiler walks a HashMap to produce
    output); the rest of codegen is explored by the multi-process tie, not proved. *)
-From Aelys Require Import Base.Tactics Extracted.PipelineStages Model.PipelineCache Model.GlobalLayoutOrder
+From Aelys Require Import Base.Tactics Extracted.PipelineStages Extracted.HashSites Model.PipelineCache Model.GlobalLayoutOrder Model.HashSites
   Proofs.PipelineCacheProofs Proofs.GlobalLayoutOrderProofs.
 From Coq Require Import String Permutation.
 Local Open Scope string_scope.
@@ -136,6 +136,20 @@ Proof. exact layout_of_decls_order_free. Qed.
 Theorem layout_needs_distinct_indices :
   exists gi gi', Permutation gi gi' /\ build_layout 1 gi (fun _ => true) <> build_layout 1 gi' (fun _ => true).
 Proof. exact layout_order_visible_without_distinct_indices. Qed.
+
+(* the other way a hash table's order could leak: merging a child compiler's table into the parent's
+   (insert-if-absent per key) gives the same table for every iteration order of the child *)
+Theorem merge_if_absent_permutation_invariant :
+  forall (parent : table) (child child' : list (string * nat)),
+    NoDup (map fst child) -> Permutation child child' ->
+    forall k, merge_if_absent parent child k = merge_if_absent parent child' k.
+Proof. exact merge_if_absent_permutation_invariant_lemma. Qed.
+
+(* every iteration over a hash table that the translator finds on the compile path is in the
+   classification table of Model/HashSites.v, and no serialized struct owns a hash table *)
+Theorem every_hash_iteration_is_classified :
+  unclassified hash_iteration_sites = [] /\ serialized_hash_fields = [].
+Proof. vm_compute. split; reflexivity. Qed.
 
 Example layout_example :
   layout_of_decls ["f"; "x"; "f"; "g"] = ["f"; "x"; "g"].
